@@ -42,9 +42,10 @@ class Color:
 
             self._rgb = parse_color_to_rgb(self.original, background=bg_rgb)
             self._parsed = True
-        except (ValueError, TypeError) as e:
+        except (ValueError, TypeError, OverflowError) as e:
             # the HSL/HSLA tuple paths convert elements with float(), which raises
-            # TypeError (not ValueError) for None or other non-numeric elements
+            # TypeError (not ValueError) for None or other non-numeric elements and
+            # OverflowError for ints too large for a float
             self._error = str(e)
             self._parsed = True
 
